@@ -103,3 +103,22 @@ def cue_lines(names: List[str]) -> Tuple[List[dict], int]:
         lines += [L("TRACK", k + 1, "AUDIO"), L("TITLE", 0, n), L("INDEX", 1, "", 0, 0, k * (k + 1) // 2)]
     n = len(names)
     return lines, 2352 * (n * (n + 1) // 2)
+
+
+def collision_rich(names: List[str]) -> bool:
+    """two groups of duplicates, or two complete L/R pairs, or a pair plus its bare stem: the shapes in which generated
+    '(n)' names and merged stems can collide"""
+    from collections import Counter
+    c = Counter(names)
+    dup_groups = sum(1 for v in c.values() if v >= 2)
+    stems = Counter()
+    for n in set(names):
+        for suf in ("-L", "-R", " L", " R"):
+            if n.endswith(suf):
+                stems[(n[:-2].rstrip(" -"), suf[0])] += 1
+    lr = {}
+    for n in set(names):
+        if len(n) > 2 and n[-1] in "LR" and n[-2] in " -":
+            lr.setdefault((n[:-2].rstrip(" -"), n[-2]), set()).add(n[-1])
+    pairs = sum(1 for v in lr.values() if v == {"L", "R"})
+    return dup_groups >= 2 or pairs >= 2 or (pairs >= 1 and any(k[0] in names for k, v in lr.items() if v == {"L", "R"}))
